@@ -360,6 +360,13 @@ func equalObject(left, right Object) bool {
 		return false
 	}
 
+	if leftSet, ok := left.(*BinarySet); ok {
+		// a binary set is kept as a slice: compare it as a set, not member by member in order
+		rightSet, _ := right.(*BinarySet)
+
+		return len(leftSet.Value) == len(rightSet.Value) && leftSet.Contains(rightSet) && rightSet.Contains(leftSet)
+	}
+
 	return reflect.DeepEqual(left, right)
 }
 
